@@ -102,7 +102,7 @@ CHECKS = {
                        "periodic values are 0,1,2.., delayed values keep emission order, a timeout needs a full quiet period and never follows the source's terminal, sampled / "
                        "throttled / buffered outputs are a sub-sequence (prefix) of the source with at most one value per period, and nothing is delivered after Unsubscribe or "
                        "(for the context-aware stages) cancellation. ThrottleTime, TimeInterval, Timestamp and Timeout-with-a-slow-observer run in real time with one-sided bounds."
-                       " Delay / DelayEach with the context cancelled while a producer that does not watch the context goes on: nothing arrives early. ThrottleTime with a period far longer than the run, in real time: exactly the first value of every subscription passes."),
+                       " Delay / DelayEach with the context cancelled while a producer that does not watch the context goes on: nothing arrives early. ThrottleTime with a period far longer than the run, in real time: exactly the first value of every subscription passes. Timer, Delay, DelayEach and Timeout are also drawn with a duration of zero."),
         "level_note": "Only what the property states is asserted (lower bounds on time, order and count relations): exact firing times and losslessness are not.",
     },
     "C14": {
@@ -170,7 +170,7 @@ CHECKS = {
                        "observed output must be the model's output for some interleaving compatible with each source's own order."
                        " Free-running producers: one goroutine per source, repeated; the observed output must be a member of the set of model outputs over all interleavings; WindowWhen with source and boundary on two goroutines (and with a producer driven by window completions) is judged by a validity predicate (windows concatenate to the source's values, every window closed)."
                        " Random arrival orders with up to 3 values per source (three sources included); GroupBy |> Take(n) |> MergeAll and a hand-written consumer that stops inside the Next delivering the n-th group: the item that opened a delivered group is not lost."
-                       " The hand-written higher arities (MergeWith3/4, CombineLatest4/5, CombineLatestWith3/4, Zip4..6, ZipWith3..5, ZipAll and CombineLatestAll over 3-4 sources, CombineLatestAny) take part in the random arrival orders and in the concurrent membership check."),
+                       " The hand-written higher arities (MergeWith3/4, CombineLatest4/5, CombineLatestWith3/4, Zip4..6, ZipWith3..5, ZipAll and CombineLatestAll over 3-4 sources, CombineLatestAny) take part in the random arrival orders and in the concurrent membership check. A quarter of the random arrival orders carry values whose own context is already cancelled: the step model is unchanged."),
         "level_note": ("Two listed findings pinned by the suite (TakeUntil/SkipUntil notifier error, SequenceEqual prefix comparison). The concurrent part only sees the schedules the "
                        "scheduler produces. FlatMap with asynchronous inners is covered through Concat + the cold-inner rows of C04."),
     },
@@ -381,7 +381,7 @@ CHECKS = {
                        " Sum, Average, Min, Max, Clamp and Count are run over every numeric element type (int8..uint64, float32/64, values at the type's limits) against exact rational arithmetic."
                        " Dematerialize over arbitrary notification streams (in-band and out-of-band endings, Take upstream); for every operator that delivers slices or maps, a consumer that clears whatever it receives must be delivered the same sequence as a passive one."
                        " Every catalogue row is also fed a stream that ends with Error(nil) (the library accepts it): same values and same kind of ending as with a non-nil error."
-                       " Round / Abs / Floor / Ceil / Trunc against the math package bit for bit; FloorWithPrecision / CeilWithPrecision(places in -1000..1000) against a validity predicate in exact rational arithmetic (the multiple of 10^-places next to the value - or to a neighbour within two ulps, a float64 standing for the decimal the user wrote -, +-Inf where the ideal result leaves the float64 range). Memory ownership of delivered containers: a consumer that overwrites the spare capacity of every slice it was handed must not change anything delivered later (an operator may not keep writing into memory it handed out)."),
+                       " Round / Abs / Floor / Ceil / Trunc against the math package bit for bit; FloorWithPrecision / CeilWithPrecision(places in -1000..1000) against a validity predicate in exact rational arithmetic (the multiple of 10^-places next to the value - or to a neighbour within two ulps, a float64 standing for the decimal the user wrote -, +-Inf where the ideal result leaves the float64 range). Memory ownership of delivered containers: a consumer that overwrites the spare capacity of every slice it was handed must not change anything delivered later (an operator may not keep writing into memory it handed out). Every catalogue row is also fed items whose own context is already cancelled, or is cancelled as soon as the emission returned: same values and ending as with live item contexts (only the subscription context stops a pipeline)."),
         "level_note": ("Trusts the hand-written reference models (harness/model) and the documentation reading recorded in DESIGN.md appendix A. "
                        "Time-driven, hand-off and multi-source rows are judged by C05/C08/C16/C17, float rounding helpers by validity predicates only."),
     },
